@@ -92,12 +92,13 @@ def main(argv: List[str]) -> None:
     pad_len = int(task["pad_len"])
     pad = hashlib.shake_256(b"vp-covfuzz-pad:%d" % task["seed"]).digest(pad_len)
     counters = {"calls": 0, "executed": 0}
+    first_seen: Dict[str, int] = {}  # fingerprint key -> call number at which the class first appeared
     t_start = time.time()
 
     def finish(stopped: str) -> None:
         sys.stderr.flush()
         _dump(task, {"report": rep, "calls": counters["calls"], "executed": counters["executed"],
-                     "wall_s": time.time() - t_start, "setup_s": t_start - t0, "stopped": stopped,
+                     "wall_s": time.time() - t_start, "setup_s": t_start - t0, "stopped": stopped, "first_seen": first_seen,
                      "instrumented": sorted(set(instrumented))})
         os._exit(0)
 
@@ -113,6 +114,9 @@ def main(argv: List[str]) -> None:
             _dump(task, {"error": f"exception escaped the property body on call {counters['calls']} "
                                   f"(input {bytes(data).hex()[:200]}):\n" + traceback.format_exc()})
             os._exit(0)
+        if len(rep.violation_counts) != len(first_seen):
+            for k in rep.violation_counts:
+                first_seen.setdefault(k, counters["calls"])
         if counters["calls"] >= runs:
             finish("runs")
 
